@@ -55,6 +55,8 @@ def seq_families(tier):
                                             maxPull=0, allowFail=False, reentrant=True), None)
     F["flatten2_re"] = (scen.with_bounds(scen.flatten_g(2, "push", "push"), "flatten", maxData=2, maxTop=3,
                                          maxPull=0, allowFail=False, reentrant=True), None)
+    F["flatten2_re_fail"] = (scen.with_bounds(scen.flatten_g(2, "push", "push"), "flatten", maxData=1, maxTop=3,
+                                              maxPull=0, allowFail=True, reentrant=True, burst=False), None)
     F["share2_re"] = (scen.with_bounds(scen.share_g("push"), "share", sinks=["probe", "probe"], maxData=2,
                                        maxTop=3, maxPull=0, allowFail=False, reentrant=True), None)
     # compositions of operators (each property is stated for every operator output, wherever it sits)
